@@ -16,6 +16,9 @@ import LtVerif.Proofs.H2Headers
 import LtVerif.Proofs.HpackWeak
 import LtVerif.Proofs.HpackHints
 import LtVerif.Proofs.HpackGlue
+import LtVerif.Proofs.HpackResp
+import LtVerif.Proofs.HpackSize
+import LtVerif.Proofs.HpackText
 namespace LtVerif.C07
 open LtVerif B Hpack H2Headers
 
@@ -411,16 +414,88 @@ example : hkeyGet (ofString "Content-Type") = 18 ∧ lcName 18 = ofString "conte
     Extracted.httpHeaderLshpackIdx.getD 18 0 = 31 ∧ staticName 31 = ofString "content-type" ∧
     Extracted.lshpackIdxHttpHeader.getD 31 0 = 18 := by decide
 
-/-- Response direction, names: whatever case a module used for a response field
-    name, the name h2_send_headers() makes the peer see is the lower-cased name
-    (through http_header_lc[], or through the static-table index lshpack is
-    told to use). -/
-theorem c07_response_names_lowercase (k v : Bytes) :
-    emitName ⟨hkeyGet k, k, v⟩ = lower k :=
-  emitName_eq_lower k v
+/-- Response direction, names: for every response header array built through
+    http_header_response_set / insert / append (any sequence of calls, any
+    spelling of the names), the name h2_send_headers() makes the peer see for
+    an element is its lower-cased field name (through http_header_lc[], or
+    through the static-table index lshpack is told to use). -/
+theorem c07_response_names_lowercase (ops : List RespOp) :
+    ∀ e ∈ (ops.foldl Resp.apply {}).arr, emitName e = lower e.key :=
+  fun e he => emitName_keyed e (ops_keyed ops {} empty_keyed e he)
 
 example : emitName ⟨hkeyGet (ofString "ETag"), ofString "ETag", ofString "x"⟩ = ofString "etag" := by
   decide
+
+/-- Response direction, the list: for every response built through the API in
+    which no field was sent twice, h2_send_headers() either sends nothing
+    (pre-pass size over 65535: RST_STREAM, the encoder is not touched) or hands
+    the encoder exactly: ":status", then one field per non-blank element in
+    order under its lower-cased name with its value unchanged — X-Sendfile and
+    X-LIGHTTPD-* never leave — then "date" and "server" unless the response has
+    its own.  (304 responses that carry Content-Encoding are excluded here:
+    the C blanks that header first.) -/
+theorem c07_response_fields (ops : List RespOp) (status : Nat) (tag : Option Bytes) :
+    let r := ops.foldl Resp.apply {}
+    r.repeated = false →
+    ¬ (status = 304 ∧ r.tags.contains Extracted.hdrContentEncoding = true) →
+    (respSize r tag ≤ 65535 →
+      respFields status r tag =
+        some ((ofString ":status", statusBytes status) :: r.arr.filterMap wantField ++ autoFields r tag)) ∧
+    (65535 < respSize r tag → respFields status r tag = none) := by
+  intro r hrep h304
+  exact ⟨fun hs => respFields_single status r tag (ops_keyed ops {} empty_keyed) hrep hs h304,
+    fun hs => respFields_oversize status r tag h304 hs⟩
+
+example : respFields 200 ([RespOp.set (ofString "X-Sendfile") (ofString "/f"),
+      RespOp.set (ofString "ETag") (ofString "x"), RespOp.append (ofString "etag") (ofString "y")].foldl
+      Resp.apply {}) (some (ofString "l")) =
+    some [(ofString ":status", ofString "200"), (ofString "etag", ofString "x, y"),
+          (ofString "date", autoDate), (ofString "server", ofString "l")] := by decide
+
+/-- Response direction, the buffer: a header list h2_send_headers() accepts
+    always fits the 128 KiB buffer it is HPACK-encoded into, with room for the
+    table size updates in front — whatever the encoder chooses per field
+    (indexed, name reference, literal; with / without / never indexing; Huffman
+    wherever that is not longer; no size updates of its own), from any table
+    state.  lshpack_enc_encode() therefore cannot run out of space half way
+    through a block (which desynchronised the peer: D21 and its residue). -/
+theorem c07_response_fits_buffer (ops : List RespOp) (status : Nat) (tag : Option Bytes)
+    (fs : List Header) (t : Table) (hwf : t.WF) (cs : List Choice) :
+    let r := ops.foldl Resp.apply {}
+    r.repeated = false →
+    ¬ (status = 304 ∧ r.tags.contains Extracted.hdrContentEncoding = true) →
+    respFields status r tag = some fs → LsLike cs fs →
+    (encodeBlock t cs fs).1.length + 6 ≤ 131072 := by
+  intro r hrep h304 h hls
+  exact respFields_fits status r tag (ops_keyed ops {} empty_keyed) hrep h304 fs h t hwf cs hls
+
+/-- Response direction, interim responses (h2_send_1xx): the text built from the
+    response headers and cut again by h2_send_headers_block() yields ":status"
+    and exactly the non-blank response headers of that moment under lower-cased
+    names — provided each can be written as a line at all (`LineOk`: no ':' /
+    LF in the name, value without LF and not starting with white space). -/
+theorem c07_interim_fields (ops : List RespOp) (status : Nat) (h1 : 100 ≤ status) (h2 : status ≤ 999) :
+    let r := ops.foldl Resp.apply {}
+    (∀ f ∈ interimWant r, LineOk f) → (interimText status r).length ≤ 65535 →
+    interimFields status r = (ofString ":status", natToDec status) :: interimWant r := by
+  intro r hok hlen
+  exact interimFields_spec status r (ops_keyed ops {} empty_keyed) h1 h2 hok hlen
+
+example : interimFields 103 ([RespOp.set (ofString "Link") (ofString "</s.css>; rel=preload")].foldl Resp.apply {}) =
+    [(ofString ":status", ofString "103"), (ofString "link", ofString "</s.css>; rel=preload")] := by decide
+
+/-- Response direction, trailers (h2_send_end_stream_trailers) and raw header
+    blocks (h2_send_headers_block): a block of written lines "name: value" is
+    cut back into exactly those fields, in order, values untouched; trailer
+    names come out lower-cased. -/
+theorem c07_block_and_trailer_fields (fs : List Header) (hne : fs ≠ []) (hok : ∀ f ∈ fs, LineOk f)
+    (hlen : (renderBlock fs).length ≤ 65535) :
+    blockFields (renderBlock fs) = fs ∧
+      trailerFields (renderBlock fs) = some (fs.map fun f => (lower f.1, f.2)) :=
+  ⟨blockFields_render fs hne hok hlen, trailerFields_render fs hne hok hlen⟩
+
+example : trailerFields (renderBlock [(ofString "X-Checksum", ofString "abc")]) =
+    some [(ofString "x-checksum", ofString "abc")] := by decide
 
 /-- Response direction, repeated fields: a field a module sends several times
     (http_header_response_insert(), e.g. Set-Cookie) is stored as one text
